@@ -1,8 +1,8 @@
 SPECIFICATION GenSpec
 CONSTANTS
-  Reqs <- Reqs3
-  Dups = {3}
-  FailIdx = {}
+  Reqs <- ReqsSame
+  Dups = {}
+  FailIdx = {3}
   RegisterFirst = TRUE
 INVARIANTS NoSpurious MatchOnce NoLoss Emit
 CHECK_DEADLOCK FALSE
